@@ -770,8 +770,12 @@ func minimiseAndWrite(bin, work, prop, sig string, l *workerLine, seed uint64, m
 		"replay": fmt.Sprintf("cd /verif && ./bin/check %s --replay <this file>", prop),
 	}
 	b, _ := json.MarshalIndent(rf, "", " ")
-	_ = os.MkdirAll(filepath.Join(verifDir, "replays"), 0755)
-	path := filepath.Join(verifDir, "replays", fmt.Sprintf("%s-%d-%s.json", prop, seed, tag))
+	rdir := filepath.Join(verifDir, "replays")
+	if d := os.Getenv("VERIF_REPLAY_DIR"); d != "" {
+		rdir = d
+	}
+	_ = os.MkdirAll(rdir, 0755)
+	path := filepath.Join(rdir, fmt.Sprintf("%s-%d-%s.json", prop, seed, tag))
 	if err := os.WriteFile(path, b, 0644); err != nil {
 		return ""
 	}
@@ -910,8 +914,14 @@ func writeEvidence(prop, tier string, seed uint64, a *agg, wall, buildS float64,
 		"assumptions": assumptions(prop),
 	}
 	b, _ := json.MarshalIndent(ev, "", " ")
-	_ = os.MkdirAll(filepath.Join(verifDir, "evidence"), 0755)
-	_ = os.WriteFile(filepath.Join(verifDir, "evidence", prop+".json"), b, 0644)
+	// VERIF_EVIDENCE_DIR redirects the evidence of experiments (runs against a deliberately broken tree) away from
+	// /verif/evidence, which only ever describes runs against /repo as it is
+	evDir := filepath.Join(verifDir, "evidence")
+	if d := os.Getenv("VERIF_EVIDENCE_DIR"); d != "" {
+		evDir = d
+	}
+	_ = os.MkdirAll(evDir, 0755)
+	_ = os.WriteFile(filepath.Join(evDir, prop+".json"), b, 0644)
 }
 
 // selftest: determinism of the simulator — the same seeds run in several fresh processes at different GOMAXPROCS must
@@ -988,8 +998,12 @@ func writePanicReplay(bin, work, prop, sig string, plan []byte, msg string, seed
 		"replay": fmt.Sprintf("cd /verif && ./bin/check %s --replay <this file>", prop),
 	}
 	b, _ := json.MarshalIndent(rf, "", " ")
-	_ = os.MkdirAll(filepath.Join(verifDir, "replays"), 0755)
-	path := filepath.Join(verifDir, "replays", fmt.Sprintf("%s-%d-%s.json", prop, seed, tag))
+	rdir := filepath.Join(verifDir, "replays")
+	if d := os.Getenv("VERIF_REPLAY_DIR"); d != "" {
+		rdir = d
+	}
+	_ = os.MkdirAll(rdir, 0755)
+	path := filepath.Join(rdir, fmt.Sprintf("%s-%d-%s.json", prop, seed, tag))
 	if os.WriteFile(path, b, 0644) != nil {
 		return ""
 	}
